@@ -21,6 +21,8 @@ var registry = map[string]func(p *Prog, r *Report){}
 func register(id string, f func(p *Prog, r *Report)) { registry[id] = f }
 
 func init() {
+	register("C06", checkC06)
+	register("C08", checkC08)
 	register("C09", checkC09)
 	register("C10", checkC10)
 	register("C11", checkC11)
